@@ -285,7 +285,8 @@ pub struct TemplateField {
 pub struct OptionsData {
     // Scope Data
     #[nom(
-        PreExec = "let template = parser.options_templates.get(&flowset_id).cloned().unwrap_or_default();",
+        PreExec = "let no_template = OptionsTemplate::default();",
+        PreExec = "let template = parser.options_templates.get(&flowset_id).unwrap_or(&no_template);",
         PreExec = "let mut field = template.scope_fields.iter();",
         Parse = "many0(complete( { |i|
                        ScopeDataField::parse(i, field.next().ok_or(
@@ -297,7 +298,6 @@ pub struct OptionsData {
     pub scope_fields: Vec<ScopeDataField>,
     // Options Data Fields
     #[nom(
-        PreExec = "let template = parser.options_templates.get(&flowset_id).cloned().unwrap_or_default();",
         PreExec = "let mut field = template.option_fields.iter();",
         Parse = "many0(complete( { |i|
                         OptionDataField::parse(i, field.next().ok_or(
@@ -385,7 +385,8 @@ impl ScopeDataField {
 pub struct Data {
     // Data Fields
     #[nom(
-        Parse = "{ |i| FieldParser::parse(i, parser.templates.get(&flowset_id).cloned().unwrap_or_default()) }"
+        PreExec = "let no_template = Template::default();",
+        Parse = "{ |i| FieldParser::parse(i, parser.templates.get(&flowset_id).unwrap_or(&no_template)) }"
     )]
     pub fields: Vec<BTreeMap<usize, V9FieldPair>>,
     #[serde(skip_serializing)]
@@ -476,10 +477,10 @@ impl FieldParser {
     /// # Errors
     ///
     /// The function will return an error if any record fails to be parsed according to the template.
-    fn parse(
-        input: &[u8],
-        template: Template,
-    ) -> IResult<&[u8], Vec<BTreeMap<usize, V9FieldPair>>> {
+    fn parse<'a>(
+        input: &'a [u8],
+        template: &Template,
+    ) -> IResult<&'a [u8], Vec<BTreeMap<usize, V9FieldPair>>> {
         let record_count = input
             .len()
             .checked_div(usize::from(template.get_total_size()))
@@ -489,7 +490,7 @@ impl FieldParser {
         let mut fields = Vec::new();
 
         for _ in 0..record_count {
-            match Self::parse_data_field(remaining, &template) {
+            match Self::parse_data_field(remaining, template) {
                 Ok((new_remaining, data_field)) => {
                     remaining = new_remaining;
                     fields.push(data_field);
